@@ -39,9 +39,9 @@ SOURCES = ['path', 'gz', 'bz2', 'memory']
 ENCODINGS = [None, 'utf-8', 'utf-8-sig', 'utf-16', 'utf-16-le', 'utf-32', 'latin-1', 'cp1252', 'ascii']
 REQUIRED = (['fmt:' + f for f in FORMATS] + ['source:' + s for s in SOURCES] + ['encoding:%s' % e for e in ENCODINGS] +
             ['quoting:%d-judged' % q for q in (0, 1, 2, 3)] + ['cell-with-delimiter', 'cell-with-quotechar', 'cell-with-CR', 'cell-with-LF',
-             'cell-with-CRLF', 'cell-with-NUL', 'append-bytes-compared', 'write_header=False', 'header-on-read', 'stdlib-not-lossless-skipped', 'target-held-older-longer-content', 'append-with-write_header=True', 'tojson-prefix-suffix', 'fromjson-with-missing'])
+             'cell-with-CRLF', 'cell-with-NUL', 'append-bytes-compared', 'write_header=False', 'header-on-read', 'stdlib-not-lossless-skipped', 'target-held-older-longer-content', 'append-with-write_header=True', 'tojson-prefix-suffix', 'fromjson-with-missing', 'reader-view-reused-after-a-rewrite'])
 
-ALPHA = ['\\', '\ufeff', ',', ';', '\t', '|', '"', "'", '\r', '\n', '\r\n', '\0', ' ', 'é', 'ü', '€', '漢', 'a', 'b', 'Z', '0', '1', '', '']
+ALPHA = ['\\', '\ufeff', '\x0b', '\x0c', '\x1c', '\x1e', '\x85', '\u2028', '\u2029', ',', ';', '\t', '|', '"', "'", '\r', '\n', '\r\n', '\0', ' ', 'é', 'ü', '€', '漢', 'a', 'b', 'Z', '0', '1', '', '']
 TYPED = [None, 0, 1, -2, 2.5, True, False, gen.D(2020, 1, 1), (1, 'x'), b'by', 1e100]
 JSONCELLS = [None, True, False, 0, 1, -7, 2.5, 1e100, 0.1, '', 'a', 'é€漢', 'q"uote', 'back\\slash', 'nl\nx', ' ', [1, 2], [], ['a', [None]],
              {'k': 1}, {'k': {'n': [1]}}, (1, 2)]
@@ -108,9 +108,64 @@ def cases(ctx):
             c['jsonargs'] = rng.choice([{}, {}, {'indent': 2}, {'sort_keys': True}, {'ensure_ascii': False}, {'separators': (',', ':')}])
             c['affix'] = rng.random() < 0.15
         yield c
+    # one reader view, several write / read cycles on the same target: every read returns what the latest write put there
+    # (field names, their order and number, and the rows all change between the writes)
+    for i in range(ctx.pick(1500, 20000)):
+        fmt = ['csv', 'tsv', 'pickle', 'json', 'jsonl'][i % 5]      # (tojsonarrays has no reader of its own)
+        tabs = []
+        for j in range(rng.randint(2, 3)):
+            nf = rng.randint(1, 4)
+            names = rng.sample(['id', 'name', 'city', 'zip', 'score', 'a', 'b'], nf)
+            tabs.append([names] + [[rng.choice(['x', 'y', '', 'é', '10', 'a b']) for _ in range(nf)] for _ in range(rng.randint(1, 4))])
+        yield {'fmt': fmt, 'cycles': tabs, 'source': rng.choice(['path', 'gz', 'bz2']), 'encoding': rng.choice([None, 'utf-8', 'utf-16-le', 'latin-1']),
+               'append_last': rng.random() < 0.3 and fmt in ('csv', 'tsv', 'pickle')}
 
 
 # ---------------------------------------------------------------------------
+
+def _judge_cycles(case, ctx):
+    fmt = case['fmt']
+    t = _target(ctx, case['source'], 'cyc')
+    kw = {}
+    if fmt in ('csv', 'tsv') and case['encoding']:
+        kw['encoding'] = case['encoding']
+    to = {'csv': petl.tocsv, 'tsv': petl.totsv, 'pickle': petl.topickle, 'json': petl.tojson, 'jsonl': petl.tojson}[fmt]
+    frm = {'csv': petl.fromcsv, 'tsv': petl.fromtsv, 'pickle': petl.frompickle, 'json': petl.fromjson, 'jsonl': petl.fromjson}[fmt]
+    wkw, rkw = dict(kw), dict(kw)
+    if fmt == 'jsonl':
+        wkw['lines'] = True
+        rkw['lines'] = True
+    tabs = copy.deepcopy(case['cycles'])
+    try:
+        view = None
+        for n_, tab in enumerate(tabs):
+            exp = [tuple(r) for r in tab]
+            if case.get('append_last') and n_ == len(tabs) - 1 and n_ > 0:
+                # the last step appends rows (under the previous header) instead of rewriting
+                ap = {'csv': petl.appendcsv, 'tsv': petl.appendtsv, 'pickle': petl.appendpickle}[fmt]
+                prev = tabs[n_ - 1]
+                add = [list(prev[0])] + [(list(r) + [''] * len(prev[0]))[:len(prev[0])] for r in tab[1:]]
+                r_ = util.attempt(lambda: ap(add, t, **kw))
+                exp = [tuple(r) for r in prev] + [tuple(r) for r in add[1:]]
+            else:
+                r_ = util.attempt(lambda: to(tab, t, **wkw))
+            if isinstance(r_, util.Raised):
+                return {'kind': 'exception', 'fn': 'to/append ' + fmt, 'detail': r_.text, 'where': r_.where, 'cycle': n_}
+            if view is None:
+                view = frm(t, **rkw)
+            for who, v_ in (('the view created after the first write', view), ('a fresh view', frm(t, **rkw))):
+                got = util.attempt_rows(lambda: v_)
+                if isinstance(got, util.Raised):
+                    return {'kind': 'exception', 'fn': 'from' + fmt, 'detail': got.text, 'where': got.where, 'cycle': n_, 'reader': who}
+                if util.crows(got) != util.crows(exp):
+                    return {'kind': 'cycle-read-differs', 'fmt': fmt, 'cycle': n_, 'reader': who, 'expected': exp, 'observed': got}
+            if n_ > 0:
+                ctx.seen('reader-view-reused-after-a-rewrite')
+                ctx.mark_nontrivial()
+    finally:
+        _cleanup(t)
+    return None
+
 
 def _target(ctx, kind, tag):
     if kind == 'memory':
@@ -169,6 +224,8 @@ def judge(case, ctx):
     fmt = case['fmt']
     ctx.op('fmt:' + fmt)
     ctx.op('source:' + case['source'])
+    if 'cycles' in case:
+        return _judge_cycles(case, ctx)
     if fmt in ('csv', 'tsv'):
         return _judge_csv(case, ctx)
     if fmt == 'pickle':
